@@ -107,7 +107,7 @@ Definition check_stat (eps : Qc) (v : sval) (obs : sx) : bool :=
       match d_x a, d_x b, d_x c, d_x d, d_x e, d_x f, d_x m, d_x va, d_x sd2 with
       | Some a, Some b, Some c, Some d, Some e, Some f, Some m, Some va, Some sd2 =>
           match v with
-          | VInvalid => is_nan a && is_nan b && is_nan e && is_nan m && is_nan va && is_nan sd2
+          | VInvalid => is_nan a && is_nan b && is_nan c && is_nan d && is_nan e && is_nan m && is_nan va && is_nan sd2
           | VData ps fresh =>
               let s := moments ps in
               xclose eps (st_sum s) a && xclose eps (st_sum2 s) b && xclose eps (st_weight s) e &&
